@@ -29,14 +29,18 @@ struct Case {
     /// the component is constructed with a placeholder temperature of 0 and the Temperature state is set to
     /// `t` afterwards (calibration, re-heating): the rule follows the state
     adapted: bool,
+    /// the placeholder temperature the component is constructed with when `adapted`
+    ctor_t0: f64,
+    /// a best-so-far record (objective value) present in the state: the rule does not consult it
+    record: Option<f64>,
 }
 impl Case {
     fn json(&self) -> Value {
-        json!({"cur": format!("{:016x}", self.cur.to_bits()), "delta": self.delta, "t": self.t, "same": self.same, "cand": self.cand.map(|c| format!("{:016x}", c.to_bits())), "scoped": self.scoped, "adapted": self.adapted})
+        json!({"cur": format!("{:016x}", self.cur.to_bits()), "delta": self.delta, "t": self.t, "same": self.same, "cand": self.cand.map(|c| format!("{:016x}", c.to_bits())), "scoped": self.scoped, "adapted": self.adapted, "ctor_t0": self.ctor_t0, "record": self.record.map(|c| format!("{:016x}", c.to_bits()))})
     }
     fn from(v: &Value) -> Option<Case> {
         let hex = |x: &Value| x.as_str().and_then(|s| u64::from_str_radix(s, 16).ok()).map(f64::from_bits);
-        Some(Case { cur: hex(&v["cur"]).unwrap_or(20.0), delta: v["delta"].as_f64()?, t: v["t"].as_f64()?, same: v["same"].as_bool().unwrap_or(false), cand: hex(&v["cand"]), scoped: v["scoped"].as_bool().unwrap_or(false), adapted: v["adapted"].as_bool().unwrap_or(false) })
+        Some(Case { cur: hex(&v["cur"]).unwrap_or(20.0), delta: v["delta"].as_f64()?, t: v["t"].as_f64()?, same: v["same"].as_bool().unwrap_or(false), cand: hex(&v["cand"]), scoped: v["scoped"].as_bool().unwrap_or(false), adapted: v["adapted"].as_bool().unwrap_or(false), ctor_t0: v["ctor_t0"].as_f64().unwrap_or(0.0), record: hex(&v["record"]) })
     }
     fn cand_value(&self) -> f64 {
         self.cand.unwrap_or(self.cur + self.delta)
@@ -54,32 +58,32 @@ fn cases() -> Vec<Case> {
     let mut v = vec![];
     for d in DELTAS {
         for t in TEMPS {
-            v.push(Case { cur: 20.0, delta: d, t, same: false, cand: None, scoped: false, adapted: false });
+            v.push(Case { cur: 20.0, delta: d, t, same: false, cand: None, scoped: false, adapted: false, ctor_t0: 0.0, record: None });
         }
         // temperature exactly zero (alpha = 0 cooling reaches it after one pass)
-        v.push(Case { cur: 20.0, delta: d, t: 0.0, same: false, cand: None, scoped: false, adapted: false });
+        v.push(Case { cur: 20.0, delta: d, t: 0.0, same: false, cand: None, scoped: false, adapted: false, ctor_t0: 0.0, record: None });
     }
     // margins of a few ulps at temperatures far below them
     for d in [-1e-15, 0.0, 2.220446049250313e-16, 1e-15, 1e-12] {
         for t in [0.0, 1e-300, 1e-17, 1e-12] {
-            v.push(Case { cur: 1.0, delta: d, t, same: false, cand: None, scoped: false, adapted: false });
+            v.push(Case { cur: 1.0, delta: d, t, same: false, cand: None, scoped: false, adapted: false, ctor_t0: 0.0, record: None });
         }
     }
     // the candidate has the encoding of the current solution but another objective value
     for d in [-1.0, 0.5, 1.0, 10.0] {
         for t in [0.1, 1.0, 1e9] {
-            v.push(Case { cur: 20.0, delta: d, t, same: true, cand: None, scoped: false, adapted: false });
+            v.push(Case { cur: 20.0, delta: d, t, same: true, cand: None, scoped: false, adapted: false, ctor_t0: 0.0, record: None });
         }
     }
     // zeros of different sign are equally good: the candidate always survives, at every temperature
     for t in [0.0, 1e-300, 1.0, 1e9] {
-        v.push(Case { cur: -0.0, delta: 0.0, t, same: false, cand: Some(0.0), scoped: false, adapted: false });
-        v.push(Case { cur: 0.0, delta: 0.0, t, same: false, cand: Some(-0.0), scoped: false, adapted: false });
+        v.push(Case { cur: -0.0, delta: 0.0, t, same: false, cand: Some(0.0), scoped: false, adapted: false, ctor_t0: 0.0, record: None });
+        v.push(Case { cur: 0.0, delta: 0.0, t, same: false, cand: Some(-0.0), scoped: false, adapted: false, ctor_t0: 0.0, record: None });
     }
     // the acceptance in a scope of its own: its temperature is the one of that scope
     for d in [-1.0, 0.0, 0.5, 10.0] {
         for t in [1e-9, 1.0, 1e9] {
-            v.push(Case { cur: 20.0, delta: d, t, same: false, cand: None, scoped: true, adapted: false });
+            v.push(Case { cur: 20.0, delta: d, t, same: false, cand: None, scoped: true, adapted: false, ctor_t0: 0.0, record: None });
         }
     }
     // a candidate worse by one to three ulps at temperatures far below that margin, for objective values whose
@@ -91,18 +95,34 @@ fn cases() -> Vec<Case> {
                 cand = crate::engine::util::next_up(cand);
             }
             for t in [1e-20, 3.7e-19, 7.3e-18, 1.9e-17] {
-                v.push(Case { cur, delta: 0.0, t, same: false, cand: Some(cand), scoped: false, adapted: false });
+                v.push(Case { cur, delta: 0.0, t, same: false, cand: Some(cand), scoped: false, adapted: false, ctor_t0: 0.0, record: None });
             }
         }
     }
     // temperatures and deteriorations at the ends of the double range: subnormal (1/T overflows), near the largest double
     for (d, t) in [(1e-320, 1e-320), (5e-321, 1e-320), (2e-320, 1e-320), (4e-320, 1e-320), (5e-324, 5e-324), (1e-323, 5e-324), (2.0e-309, 4.0e-309), (f64::MIN_POSITIVE, f64::MIN_POSITIVE / 2.0), (f64::MIN_POSITIVE, f64::MIN_POSITIVE), (1e308, 1e308), (1.7e308, 1e308), (0.5e308, 1.7e308), (1.0, 1.7e308)] {
-        v.push(Case { cur: 0.0, delta: 0.0, t, same: false, cand: Some(d), scoped: false, adapted: false });
+        v.push(Case { cur: 0.0, delta: 0.0, t, same: false, cand: Some(d), scoped: false, adapted: false, ctor_t0: 0.0, record: None });
+    }
+    // a best-so-far record in the state that is worse than the current solution (left by another phase, or never updated
+    // with the initial solution): the rule compares candidate and current solution only
+    for d in [0.5, 1.0, 10.0] {
+        for t in [0.0, 1e-9, 0.1, 1.0] {
+            for rec in [20.0 + d, 20.0 + d + 5.0, 1e6] {
+                v.push(Case { cur: 20.0, delta: d, t, same: false, cand: None, scoped: false, adapted: false, ctor_t0: 0.0, record: Some(rec) });
+            }
+        }
+    }
+    // constructed with a positive temperature, cooled to exactly zero afterwards (alpha = 0, or underflow): zero is a
+    // temperature like any other, and the acceptance leaves the temperature state alone
+    for d in [-1.0, 0.0, 0.5, 1.0, 10.0] {
+        for t0 in [5.0, 1e-3] {
+            v.push(Case { cur: 20.0, delta: d, t: 0.0, same: false, cand: None, scoped: false, adapted: true, ctor_t0: t0, record: None });
+        }
     }
     // the temperature is state: constructed with a placeholder of 0, set afterwards
     for d in [-1.0, 0.5, 1.0, 10.0] {
         for t in [1.0, 10.0, 1e9] {
-            v.push(Case { cur: 20.0, delta: d, t, same: false, cand: None, scoped: false, adapted: true });
+            v.push(Case { cur: 20.0, delta: d, t, same: false, cand: None, scoped: false, adapted: true, ctor_t0: 0.0, record: None });
         }
     }
     v
@@ -115,13 +135,21 @@ fn run_accept(c: Case) -> Obs {
     let cand = c.cand_value();
     let mut st = state_with::<TagP>(vec![tpop(&[(9, 99.0)]), tpop(&[(1, c.cur)]), tpop(&[(c.cand_tag(), cand)])]);
     let t = c.t;
-    let comp = ExponentialAnnealingAcceptance::new::<TagP>(if c.adapted { 0.0 } else { t });
+    if let Some(rec) = c.record {
+        let mut b = mahf::state::common::BestIndividual::<TagP>::new();
+        b.update(&crate::subject::prep::tind(&(77, rec)));
+        st.insert(b);
+    }
+    let comp = ExponentialAnnealingAcceptance::new::<TagP>(if c.adapted { c.ctor_t0 } else { t });
     let r = if c.adapted {
         (|| -> mahf::ExecResult<()> {
             comp.init(&TagP, &mut st)?;
             comp.require(&TagP, &st.requirements())?;
             st.set_value::<Temperature>(t);
-            comp.execute(&TagP, &mut st)
+            comp.execute(&TagP, &mut st)?;
+            let after = st.get_value::<Temperature>();
+            eyre::ensure!(after.to_bits() == t.to_bits(), "TEMPERATURE-CHANGED: the acceptance left the temperature state at {:?}, it was {:?}", after, t);
+            Ok(())
         })()
         .map_err(|e| format!("{:#}", e))
     } else if c.scoped {
@@ -177,7 +205,7 @@ fn check_accept(c: Case, word: Option<u64>, out: &Outcome<Obs>) -> Option<(Strin
     } else {
         "worse"
     };
-    let head = format!("C17 acceptance candidate={}{}{}{}", dclass, if c.t == 0.0 { " T=0" } else { "" }, if c.same { " same-encoding" } else { "" }, if c.scoped { " in-scope" } else if c.adapted { " temperature-set-after-init" } else { "" });
+    let head = format!("C17 acceptance candidate={}{}{}{}", dclass, if c.t == 0.0 { " T=0" } else { "" }, if c.same { " same-encoding" } else { "" }, if c.scoped { " in-scope" } else if c.adapted { " temperature-set-after-init" } else if c.record.is_some() { " with-worse-best-record" } else { "" });
     let ctx = |w: String| format!("f(current)={:?}, f(candidate)={:?}, T={:?}{}, candidate encoding {} the current one, acceptance word {:?}: {}", c.cur, c.cand_value(), c.t, if c.scoped { " (in an inner scope; the outer scope holds another temperature)" } else { "" }, if c.same { "equals" } else { "differs from" }, word, w);
     let (r, pops) = match out {
         Outcome::Done(o) => o,
@@ -185,6 +213,9 @@ fn check_accept(c: Case, word: Option<u64>, out: &Outcome<Obs>) -> Option<(Strin
         _ => return None,
     };
     if let Err(e) = r {
+        if e.contains("TEMPERATURE-CHANGED") {
+            return Some((format!("{} changes-the-temperature", head), ctx(e.clone())));
+        }
         return Some((format!("{} error", head), ctx(format!("returned Err: {}", e))));
     }
     if pops.len() != 2 || pops[1] != vec![(9, Some(99.0))] || pops[0].len() != 1 {
